@@ -289,6 +289,7 @@ class Ctx:
         state = dict(target=None, best=None, best_size=None, calls=0, t0=None)
         ctx = self
         seen = set()
+        blob_status = {}
 
         @hypothesis.seed(self.seed_for(name))
         @settings(max_examples=n_examples, database=None, deadline=None, derandomize=False,
@@ -301,10 +302,21 @@ class Ctx:
                 state["calls"] += 1
                 if state["calls"] > ctx.shrink_calls or time.time() - state["t0"] > ctx.shrink_s:
                     raise _AbortShrink()
-            case = gen(Chooser(b"".join(blob)))
+            raw = b"".join(blob)
+            if not shrinking:
+                # Hypothesis may replay a blob it has already run: the verdict (valid / rejected as duplicate) must
+                # be the same every time, or the engine reports the test as flaky
+                bh = hash(raw)
+                st_ = blob_status.get(bh)
+                if st_ is not None:
+                    if st_:
+                        return
+                    hypothesis.reject()
+            case = gen(Chooser(raw))
             if case is None:
                 if not shrinking:
                     acc.notes["generator_declined"] += 1
+                    blob_status[bh] = True
                 return
             if not shrinking:
                 hk = h64(jdump(case))
@@ -312,8 +324,10 @@ class Ctx:
                     # Hypothesis' mutation of earlier examples often changes only bytes the generator
                     # did not consume: an identical case is neither evaluated nor counted
                     acc.notes["duplicate_cases_discarded"] += 1
+                    blob_status[bh] = False
                     hypothesis.reject()
                 seen.add(hk)
+                blob_status[bh] = True
             res = ctx.evaluate(case)
             if not shrinking:
                 acc.count(case, res)
